@@ -39,6 +39,7 @@ type Finding struct {
 	Commit    string   `json:"commit,omitempty"`
 	Replay    string   `json:"replay,omitempty"` // path relative to /verif
 	Sigs      []string `json:"sigs,omitempty"`   // anchored regexps over discrepancy signatures
+	Avoid     []string `json:"avoid,omitempty"`  // generator shapes excluded by construction while the finding is open
 	res       []*regexp.Regexp
 }
 
@@ -102,6 +103,7 @@ type Run struct {
 	extra       map[string]any
 	out         string
 	findings    []*Finding
+	all         []*Finding
 }
 
 func envInt(name string, def int) int {
@@ -161,14 +163,26 @@ func (r *Run) loadFindings() {
 		panic("known_findings.json: " + err.Error())
 	}
 	for _, f := range kf.Findings {
-		if f.Property != r.ID {
-			continue
-		}
 		for _, s := range f.Sigs {
 			f.res = append(f.res, regexp.MustCompile("^(?:"+s+")$"))
 		}
-		r.findings = append(r.findings, f)
+		r.all = append(r.all, f)
+		if f.Property == r.ID {
+			r.findings = append(r.findings, f)
+		}
 	}
+}
+
+// MatchKnownOf returns the open finding of property prop whose matcher accepts sig, or nil. It lets
+// a check recognise that a case is contaminated by a listed finding of another property (e.g. a
+// mis-typed sub-expression, C03) before blaming its own property.
+func (r *Run) MatchKnownOf(prop, sig string) *Finding {
+	for _, f := range r.all {
+		if f.Property == prop && f.Status == "known" && f.Match(sig) {
+			return f
+		}
+	}
+	return nil
 }
 
 // Findings returns the entries of known_findings.json for this property (known and fixed).
@@ -321,6 +335,15 @@ func (r *Run) Report(replay any, sig, format string, a ...any) {
 // shrinking and finally once more on the minimal case, so the last recorded case is the minimum.
 func (r *Run) Fail(t *rapid.T, replay any, sig, format string, a ...any) {
 	msg := fmt.Sprintf(format, a...)
+	if os.Getenv("VERIF_COLLECT") != "" { // development aid: survey all discrepancy classes instead of stopping at the first
+		r.mu.Lock()
+		r.classes["SIG:"+sig]++
+		if _, ok := r.extra["EX:"+sig]; !ok {
+			r.extra["EX:"+sig] = msg
+		}
+		r.mu.Unlock()
+		t.Skip("collected")
+	}
 	r.mu.Lock()
 	r.last = &Violation{Msg: msg, Sig: sig, Replay: raw(replay)}
 	r.mu.Unlock()
@@ -393,4 +416,28 @@ func (r *Run) LoadReplay(f *Finding, v any) error {
 		return err
 	}
 	return json.Unmarshal(data, v)
+}
+
+// KnownAvoid returns the generator shapes to exclude: the union of the avoid lists of all findings
+// (of any property) that are still open.
+func KnownAvoid() map[string]bool {
+	out := map[string]bool{}
+	data, err := os.ReadFile(filepath.Join(VerifRoot(), "known_findings.json"))
+	if err != nil {
+		return out
+	}
+	var kf struct {
+		Findings []*Finding `json:"findings"`
+	}
+	if json.Unmarshal(data, &kf) != nil {
+		return out
+	}
+	for _, f := range kf.Findings {
+		if f.Status == "known" {
+			for _, a := range f.Avoid {
+				out[a] = true
+			}
+		}
+	}
+	return out
 }
